@@ -60,7 +60,7 @@ def run(tier):
     ndset.FULL_LIMIT = 3
     for rel in ("coco/b09/visitors.py", "coco/b09/compiler.py", "coco/b09/procbank.py", "coco/b09/elements.py"):
         ctx.encode(rel + " (executed with a schedulable set class)", repo_source(rel))
-    ctx.bounds.update({"programs": [p[0] for p in PROGRAMS], "option_sets": [o[0] for o in OPTION_SETS], "full_permutations_up_to": 3, "simultaneous_deviations_from_default_order": 1 if tier == "quick" else 2,
+    ctx.bounds.update({"programs": [p[0] for p in PROGRAMS], "option_sets": [o[0] for o in OPTION_SETS], "full_permutations_up_to": 3, "simultaneous_deviations_from_default_order": 1 if tier == "quick" else "2 with the bundled library, 3 without",
                        "orders_for_larger_sets": "sorted, reversed and all rotations", "hash_seeds_replayed": 8 if tier == "quick" else 24})
     from coco.b09 import compiler
 
@@ -72,7 +72,8 @@ def run(tier):
             def fn():
                 return compiler.convert(src + "\n", **opts)
 
-            results, cov = ndset.explore(fn, modules(), depth=1 if tier == "quick" else 2)
+            depth = 1 if tier == "quick" else (2 if oname == "bundle" else 3)
+            results, cov = ndset.explore(fn, modules(), depth=depth, max_runs=20000)
             ctx.stats["states"] += len(results)
             ctx.stats["transitions"] += sum(len(v) for v, _ in results)
             ctx.stats["obligations"] += 1
